@@ -11,7 +11,7 @@ Why(r) ==
     [] r.kind = "determinism" -> IF AllSame(r.ctx) THEN "ok" ELSE "context-dependent-type"
     [] r.kind = "unify" -> IF r.outcome = "error" THEN "ok" ELSE IF r.outcome # "rows" THEN "outcome"
                            ELSE IF \A i \in DOMAIN r.branches : CanHold(r.t, r.branches[i]) THEN "ok" ELSE "unified-type-cannot-hold-branch"
-    [] r.kind = "class" -> IF r.outcome # "rows" THEN "ok" ELSE IF r.t.b \in r.cls THEN "ok" ELSE "result-class"
+    [] r.kind = "class" -> IF r.outcome # "rows" THEN "ok" ELSE IF \E i \in DOMAIN r.cls : r.cls[i] = r.t.b THEN "ok" ELSE "result-class"
 TInit == l = 1
 TNext == /\ l <= Len(Rec) /\ l' = l + 1
          /\ LET why == Why(Rec[l]) IN IF why = "ok" THEN TRUE ELSE PrintT(ToJson([mismatch |-> Rec[l].id, why |-> why]))
